@@ -894,8 +894,14 @@ fn special(r: &mut Rng, base: Vec<u8>) -> Vec<u8> {
     let mut v: Vec<u8> = vec![];
     match r.below(8) {
         0 | 1 | 2 => {
-            // special prefix, sometimes in front of something command-like
-            v.extend_from_slice(pickb(r, PREFIXES));
+            // special prefix (one time in four: a literal of the library's own
+            // source), sometimes in front of something command-like
+            let lits = literal_prefixes();
+            if !lits.is_empty() && r.chance(1, 4) {
+                v.extend_from_slice(lits[r.below(lits.len())]);
+            } else {
+                v.extend_from_slice(pickb(r, PREFIXES));
+            }
             if r.chance(1, 3) {
                 v.extend_from_slice(pickb(r, AFTER_PREFIX));
             } else {
@@ -1289,8 +1295,56 @@ pub fn valid_of_kind(r: &mut Rng, kind: Kind) -> Line {
     valid_command(r, ci)
 }
 
+/// Literals of the library's own source that can stand at the start of a
+/// file line (no '@', blank or byte of disputed white-space status first).
+fn literal_prefixes() -> &'static [&'static [u8]] {
+    static L: std::sync::OnceLock<Vec<&'static [u8]>> = std::sync::OnceLock::new();
+    L.get_or_init(|| {
+        crate::corpus::literals()
+            .iter()
+            .filter(|(s, _)| matches!(s.as_str(), "plist" | "pkgdb" | "metadata" | "summary" | "distinfo"))
+            .map(|(_, b)| b.as_slice())
+            .filter(|b| b.len() <= 24 && !b.contains(&b'\n') && !matches!(b[0], b'@' | b' ' | b'\t' | 0x0b | 0x0c | 0x0d | 0x1c..=0x1f | 0x85 | 0xa0 | 0xc2 | 0xe1 | 0xe2 | 0xe3))
+            .collect()
+    })
+}
+
+/// Command words the library's source mentions that are not among the
+/// supported ones: `@word` lines that must be rejected whatever the library
+/// has learnt about them.
+fn literal_unknown_commands() -> &'static [Vec<u8>] {
+    static L: std::sync::OnceLock<Vec<Vec<u8>>> = std::sync::OnceLock::new();
+    L.get_or_init(|| {
+        let mut out: Vec<Vec<u8>> = vec![];
+        for (stem, b) in crate::corpus::literals() {
+            if stem != "plist" || b.len() > 24 || b.iter().any(|c| !c.is_ascii_graphic()) {
+                continue;
+            }
+            let w: Vec<u8> = if b[0] == b'@' { b.clone() } else { [&b"@"[..], b].concat() };
+            if w.len() < 2 || CMDS.iter().any(|c| c.word.as_bytes() == &w[..]) || out.contains(&w) {
+                continue;
+            }
+            out.push(w);
+        }
+        out
+    })
+}
+
 /// A random line that must be rejected.
 pub fn faulty_line(r: &mut Rng) -> Line {
+    let lits = literal_unknown_commands();
+    if !lits.is_empty() && r.chance(1, 8) {
+        let mut bytes = lits[r.below(lits.len())].clone();
+        match r.below(3) {
+            0 => {}
+            1 => bytes.push(b' '),
+            _ => {
+                bytes.extend(separator(r));
+                bytes.extend(payload(r, "ascii", Kind::Comment));
+            }
+        }
+        return Line { bytes, want: Want::Err(ErrKind::Unsupported), cmd: "unknown", arg: "source-literal" };
+    }
     if r.chance(1, 3) {
         let (wi, ai) = (r.below(UNKNOWN.len()), r.below(UNKNOWN_ARGS.len()));
         return unknown_line(r, wi, ai);
